@@ -554,7 +554,8 @@ static void op_unpack(int with_mask)
 	uint8_t *in = exact_copy(raw, n);
 	const char *mask = NULL; int tail = 0;
 	ProtobufCMessage *m;
-	if (with_mask) { mask = tok(); tail = tok_ll(); if (mask[0] == '-') mask = ""; }
+	int saved_trace = g_trace;
+	if (with_mask) { mask = tok(); tail = tok_ll(); if (mask[0] == '-') mask = ""; g_trace = 1; }
 	rec_reset(mask, tail);
 	g_n_err = 0;
 	m = protobuf_c_message_unpack(&mx->d, &g_rec, n, in);
@@ -565,6 +566,24 @@ static void op_unpack(int with_mask)
 	if (with_mask) printf(" refused=%d", g_refused);
 	if (g_trace) printf(" trace=%s", g_tracebuf ? g_tracebuf : "");
 	printf("\n");
+	g_trace = saved_trace;
+	free(raw); free(in);
+}
+
+/* unpacksys <ty> X<hex>: no allocator supplied -> the system allocator, and only it, is used */
+static void op_unpacksys(void)
+{
+	MsgX *mx = &g_msgs[tok_ll()];
+	size_t n; uint8_t *raw = hex2bytes(tok() + 1, &n);
+	uint8_t *in = exact_copy(raw, n);
+	ProtobufCMessage *m;
+	long a, f;
+	rec_reset(NULL, 0);
+	m = protobuf_c_message_unpack(&mx->d, NULL, n, in);
+	a = g_sys_malloc_calls;
+	if (m) protobuf_c_message_free_unpacked(m, NULL);
+	f = g_sys_free_calls;
+	printf("%s sysmalloc=%ld sysfree=%ld custom_calls=%d\n", m ? "ok" : "fail", a, f, g_alloc_count);
 	free(raw); free(in);
 }
 
@@ -731,6 +750,7 @@ static void run_op(const char *op)
 	if (!strcmp(op, "pack")) op_pack();
 	else if (!strcmp(op, "unpack")) op_unpack(0);
 	else if (!strcmp(op, "unpackf")) op_unpack(1);
+	else if (!strcmp(op, "unpacksys")) op_unpacksys();
 	else if (!strcmp(op, "rt")) op_rt();
 	else if (!strcmp(op, "acc")) op_acc();
 	else if (!strcmp(op, "check")) op_check();
